@@ -99,6 +99,19 @@ Fixpoint run_entries (m : smap) (ops : list (bytes * bytes)) (max_count : N) : l
       let '(m', b) := update_entry m k v max_count in b :: run_entries m' t max_count
   end.
 
+(* ---- monitor-loop level (service_main.rs monitor_thread / report_proxy_agent_aggregate_status /
+   extension_substatus): one poll of the aggregate status file is ONE health observation.  A poll fails when
+   the file cannot be read or its version differs from the extension's, and succeeds otherwise; each path
+   calls update_state exactly once. ---- *)
+Inductive poll := PollReadErr | PollMismatch | PollHealthy.
+Definition poll_ok (p : poll) : bool := match p with PollHealthy => true | _ => false end.
+Definition poll_step (s : status_state) (p : poll) : status_state := update_state s (poll_ok p).
+Definition run_polls (s : status_state) (ps : list poll) : list hstate := run s (map poll_ok ps).
+Definition state_after_polls (s : status_state) (ps : list poll) : status_state := run_state s (map poll_ok ps).
+
+(* `impl Default for StatusState { fn default() -> Self { Self::new() } }` *)
+Definition ss_default : status_state := ss_new.
+
 (* encoding used by the correspondence check *)
 Definition hstate_code (h : hstate) : N :=
   match h with Success => 0 | Transitioning => 1 | Error => 2 | Other => 3 end.
